@@ -17,6 +17,8 @@ type Seg struct {
 	Name  string
 	Len   *Term
 	Bytes []*Term
+	Zeros bool  // Len zero bytes
+	Min   *Term // the minimal big-endian byte string of the integer Min (Len bytes)
 }
 
 func (s AbsSlice) Length() *Term {
@@ -40,6 +42,10 @@ func segsKey(segs []Seg) string {
 				k += b.Key() + ","
 			}
 			k += "]"
+		} else if g.Zeros {
+			k += "<zeros:" + g.Len.Key() + ">"
+		} else if g.Min != nil {
+			k += "<min:" + g.Min.Key() + ">"
 		} else {
 			k += "<" + g.Name + ">"
 		}
@@ -71,7 +77,10 @@ func SymBytes(name string) AbsSlice {
 // concretise turns a single-segment symbolic string whose length is bound to
 // a constant on this path into an array of symbolic bytes.
 func (it *Interp) concretise(s AbsSlice) (SliceV, bool) {
-	if len(s.Segs) != 1 || s.Segs[0].Bytes != nil {
+	if sv, ok := it.concretiseInt(s); ok {
+		return sv, true
+	}
+	if len(s.Segs) != 1 || s.Segs[0].Bytes != nil || s.Segs[0].Zeros || s.Segs[0].Min != nil {
 		return SliceV{}, false
 	}
 	g := s.Segs[0]
@@ -162,6 +171,12 @@ func (fr *Frame) step(in ssa.Instruction) {
 		if ok1 && n == 0 && !ok2 {
 			fr.regs[x] = AbsSlice{}
 			return
+		}
+		if !ok1 {
+			if lt, isT := fr.get(x.Len).(TermV); isT {
+				fr.regs[x] = AbsSlice{Segs: []Seg{{Zeros: true, Len: lt.T}}}
+				return
+			}
 		}
 		if !ok1 || !ok2 {
 			it.abortf("make with a symbolic length in %s", fr.fn)
@@ -475,4 +490,32 @@ func (fr *Frame) sliceToArray(x *ssa.SliceToArrayPointer) Value {
 	}
 	view := &Cell{Typ: x.Type().(*types.Pointer).Elem(), Kids: s.Arr.Kids[s.Lo : s.Lo+n], Obj: s.Arr.Obj}
 	return Ptr{view}
+}
+
+// concretiseInt handles  zeros ‖ minimal-bytes(V)  (and minimal-bytes(V)
+// alone) whose total length is a constant N on this path: that string is
+// the N-byte big-endian representation of V.
+func (it *Interp) concretiseInt(s AbsSlice) (SliceV, bool) {
+	segs := s.Segs
+	if len(segs) == 0 || len(segs) > 2 {
+		return SliceV{}, false
+	}
+	last := segs[len(segs)-1]
+	if last.Min == nil || (len(segs) == 2 && !segs[0].Zeros) {
+		return SliceV{}, false
+	}
+	k, ok := it.ApplyTerm(s.Length()).IsConst()
+	if !ok || !k.IsInt64() || k.Int64() > 1024 {
+		return SliceV{}, false
+	}
+	n := int(k.Int64())
+	_, hi := last.Min.Bounds()
+	if hi.BitLen() > 8*n {
+		return SliceV{}, false
+	}
+	o := it.NewArrayObject(types.Typ[types.Uint8], n, "be-bytes", false)
+	for i, c := range o.Root.Kids {
+		c.Val = termValue(ByteOf(last.Min, n-1-i))
+	}
+	return SliceV{Arr: o.Root, Lo: 0, Len: TInt(int64(n)), Cap: n}, true
 }
